@@ -38,7 +38,18 @@ func (c *FnCtx) evalCall1(st *State, call *ast.CallExpr) []*Term {
 						if _, isLit := ast.Unparen(ae).(*ast.FuncLit); isLit {
 							continue
 						}
-						env[fmt.Sprintf("$arg%d", i)] = c.eval(st, ae)
+						v := c.eval(st, ae)
+						if isUntypedNil(c.typeOf(ae)) {
+							// a literal nil takes the parameter's type
+							if sig, ok := c.typeOf(call.Fun).Underlying().(*types.Signature); ok && sig.Params().Len() > 0 {
+								k := i
+								if k >= sig.Params().Len() {
+									k = sig.Params().Len() - 1
+								}
+								v = c.zero(sig.Params().At(k).Type())
+							}
+						}
+						env[fmt.Sprintf("$arg%d", i)] = v
 					}
 				}
 				if strings.Contains(a.Text, "$recv") {
